@@ -344,6 +344,15 @@ func (w *worker) runSel(c *selCase, raw []byte) {
 			// ---- C14 call logs (top-level trailing functions)
 			if P["C14"] && c.Det {
 				w.checkLog(c, log, text, before, kinds, raw)
+				if si == 0 {
+					// functions must see the same plain values when the results are wrapped in accessors
+					alog := &callLog{}
+					acfg := modelConfig(alog, true)
+					if apr := safeParse(text, &acfg); apr.Err == nil && apr.Panic == nil {
+						safeCall(apr.F, c.Doc.ToGo(m))
+						w.checkLog(c, alog, text+" (accessor mode)", before, kinds, raw)
+					}
+				}
 			}
 			// ---- C18 spellings agree with the canonical spelling
 			if P["C18"] {
